@@ -41,6 +41,11 @@ def run_ec(task: dict) -> dict:
             else:
                 if not (isinstance(lineno, int) and isinstance(col, int) and lineno >= 1 and col >= 1 and len(line) <= n):
                     out.append(("insane", f"p={p} -> {lineno}:{col} len(line)={len(line)}"))
+                else:
+                    # every line boundary str.splitlines() honours (the renderer's own convention)
+                    rl, rc, want = _ref_splitlines(text, p)
+                    if (lineno, col) != (rl, rc) or not famcheck._same_chars(line, want):
+                        out.append(("linecol-any", f"p={p} shown={lineno}:{col} want={rl}:{rc} (splitlines convention)"))
             return out
 
         def fn(e):
@@ -90,6 +95,25 @@ def run_ec(task: dict) -> dict:
     return res
 
 
+def _ref_splitlines(text, p):
+    """(line, col, stripped line) of offset p where lines are what str.splitlines() yields;
+    an offset at the end of a text that ends with a line boundary is on a new, empty line."""
+    lines = text.splitlines(keepends=True) if len(text) else []
+    start = 0
+    for i, ln in enumerate(lines):
+        if p < start + len(ln):
+            return i + 1, p - start + 1, ln.rstrip()
+        start += len(ln)
+    if lines:
+        last = lines[-1]
+        tail = last[len(last) - 1]
+        is_break = (ord(tail) in symx.LINE_BOUNDARIES) if isinstance(tail, str) else symx.engine().branch(symx.in_set(tail.ch[0], symx.LINE_BOUNDARIES))
+        if not is_break:
+            start -= len(last)
+            return len(lines), p - start + 1, last.rstrip()
+    return len(lines) + 1, p - start + 1, ""
+
+
 def _replay(spec):
     from . import pestenv
 
@@ -108,6 +132,9 @@ def _replay(spec):
         return []
     if not (lineno >= 1 and col >= 1 and len(line) <= len(text)):
         return [("insane", f"{lineno}:{col}")]
+    rl, rc, want = _ref_splitlines(text, p)
+    if (lineno, col, line) != (rl, rc, want):
+        return [("linecol-any", f"shown={lineno}:{col} {line!r} want={rl}:{rc} {want!r}")]
     return []
 
 
